@@ -592,3 +592,115 @@ theorem plus_set_all (W S : CSet) (pre : List Nat) (c : Nat) (t : List Nat) (hal
   exact star_set_all (isSetStep_m W S) t (c :: pre) _ some _ (fun d hd => hall d (List.mem_cons_of_mem _ hd)) (by simp) rfl
 
 end MindsVerif.Re
+
+namespace MindsVerif.Re
+
+/-! ### the back-quoted branch of the identifier regex: `` ` ( [^`] | `` )+ ` `` -/
+
+/-- one element of a quoted name: a character that is not the quote, or the doubled quote -/
+def bqItem (Q N : CSet) : Re := .alt (.set N) (.seq (.set Q) (.set Q))
+
+/-- `` ` X+ ` `` as the translator emits it -/
+def bqRe (Q N : CSet) : Re := .seq (.set Q) (.seq (.seq (bqItem Q N) (.star true (bqItem Q N))) (.set Q))
+
+/-- the printer's encoding of a name body: the quote character doubled -/
+def bqBody (q : Nat) : List Nat → List Nat
+  | [] => []
+  | c :: t => if c = q then q :: q :: bqBody q t else c :: bqBody q t
+
+/-- what the class facts must be: `Q` holds the quote, `N` everything else that occurs -/
+structure BqOK (Q N : CSet) (q : Nat) (body : List Nat) : Prop where
+  qq : Q.mem q = true
+  nq : N.mem q = false
+  nn : ∀ c ∈ body, c ≠ q → N.mem c = true
+
+/-- the repeat over the items of an encoded body, closing quote behind it, runs to the end -/
+theorem bq_star (W Q N : CSet) (q : Nat) {step : Pos → (Pos → Option Pos) → Option Pos} {kq : Pos → Option Pos}
+    (hstep : ∀ p k, step p k = m W (bqItem Q N) p k) (hk : ∀ p, kq p = m W (.set Q) p some) :
+    ∀ (body : List Nat) (pre : List Nat) (n : Nat), BqOK Q N q body →
+    (bqBody q body).length + 1 < n →
+    starLoop step true n ⟨pre, bqBody q body ++ [q]⟩ kq = some (Pos.mk pre (bqBody q body ++ [q])).fin := by
+  intro body
+  induction body with
+  | nil =>
+    intro pre n hok hn
+    cases n with
+    | zero => omega
+    | succ n =>
+      simp only [bqBody, List.nil_append, starLoop, if_true]
+      rw [hstep, hk]
+      simp only [bqItem, m, hok.nq, hok.qq, Bool.false_eq_true, if_false, if_true]
+      simp [Option.orElse, Pos.fin]
+  | cons c t ih =>
+    intro pre n hok hn
+    have hokt : BqOK Q N q t := ⟨hok.qq, hok.nq, fun d hd hne => hok.nn d (List.mem_cons_of_mem _ hd) hne⟩
+    cases n with
+    | zero => omega
+    | succ n =>
+      by_cases hc : c = q
+      · subst hc
+        have hlen : (bqBody c t).length + 1 < n := by simp [bqBody] at hn; omega
+        have := ih (c :: c :: pre) n hokt hlen
+        simp only [bqBody, if_true, List.cons_append, starLoop]
+        rw [hstep]
+        simp only [bqItem, m, hok.nq, hok.qq, Bool.false_eq_true, if_false, if_true]
+        have hlt : (bqBody c t ++ [c]).length < (c :: c :: (bqBody c t ++ [c])).length := by simp
+        simp only [hlt, if_true, this]
+        simp [Option.orElse, Pos.fin]
+      · have hN : N.mem c = true := hok.nn c List.mem_cons_self hc
+        have hlen : (bqBody q t).length + 1 < n := by simp [bqBody, hc] at hn; omega
+        have := ih (c :: pre) n hokt hlen
+        simp only [bqBody, hc, if_false, List.cons_append, starLoop, if_true]
+        rw [hstep]
+        simp only [bqItem, m, hN, if_true]
+        have hlt : (bqBody q t ++ [q]).length < (c :: (bqBody q t ++ [q])).length := by simp
+        simp only [hlt, if_true, this]
+        simp [Option.orElse, Pos.fin]
+
+theorem m_set_cons (W S : CSet) (pre : List Nat) (c : Nat) (t : List Nat) (k : Pos → Option Pos) :
+    m W (.set S) ⟨pre, c :: t⟩ k = if S.mem c = true then k ⟨c :: pre, t⟩ else none := by simp [m]
+theorem m_alt (W : CSet) (a b : Re) (p : Pos) (k : Pos → Option Pos) :
+    m W (.alt a b) p k = (m W a p k).orElse fun _ => m W b p k := by simp [m]
+theorem m_seq (W : CSet) (a b : Re) (p : Pos) (k : Pos → Option Pos) :
+    m W (.seq a b) p k = m W a p fun q => m W b q k := by simp [m]
+theorem m_star (W : CSet) (g : Bool) (r : Re) (p : Pos) (k : Pos → Option Pos) :
+    m W (.star g r) p k = starLoop (fun q k' => m W r q k') g (p.suf.length + 1) p k := by simp [m]
+
+/-- **the quoted branch on an encoded name**: quote, encoded non-empty body, quote — matched as a whole -/
+theorem bqRe_match (W Q N : CSet) (q : Nat) (body : List Nat) (hne : body ≠ []) (hok : BqOK Q N q body) (pre : List Nat) :
+    matchAt W (bqRe Q N) ⟨pre, q :: (bqBody q body ++ [q])⟩ = some (Pos.mk pre (q :: (bqBody q body ++ [q]))).fin := by
+  cases body with
+  | nil => exact absurd rfl hne
+  | cons c t =>
+    have hokt : BqOK Q N q t := ⟨hok.qq, hok.nq, fun d hd hne => hok.nn d (List.mem_cons_of_mem _ hd) hne⟩
+    unfold matchAt bqRe
+    rw [m_seq, m_set_cons, if_pos hok.qq, m_seq, m_seq]
+    by_cases hc : c = q
+    · subst hc
+      have := bq_star W Q N c (step := fun p k' => m W (bqItem Q N) p k') (kq := fun p2 => m W (.set Q) p2 some)
+        (fun _ _ => rfl) (fun _ => rfl) t (c :: c :: c :: pre) ((bqBody c t ++ [c]).length + 1) hokt (by simp)
+      have e : bqBody c (c :: t) ++ [c] = c :: c :: (bqBody c t ++ [c]) := by simp [bqBody]
+      rw [e]
+      unfold bqItem
+      rw [m_alt, m_set_cons, if_neg (by simp [hok.nq]), m_seq, m_set_cons, if_pos hok.qq, m_set_cons, if_pos hok.qq, m_star]
+      unfold bqItem at this
+      rw [this]
+      simp [Option.orElse, Pos.fin]
+    · have hN : N.mem c = true := hok.nn c List.mem_cons_self hc
+      have := bq_star W Q N q (step := fun p k' => m W (bqItem Q N) p k') (kq := fun p2 => m W (.set Q) p2 some)
+        (fun _ _ => rfl) (fun _ => rfl) t (c :: q :: pre) ((bqBody q t ++ [q]).length + 1) hokt (by simp)
+      have e : bqBody q (c :: t) ++ [q] = c :: (bqBody q t ++ [q]) := by simp [bqBody, hc]
+      rw [e]
+      unfold bqItem
+      rw [m_alt, m_set_cons, if_pos hN, m_star]
+      unfold bqItem at this
+      rw [this]
+      simp [Option.orElse, Pos.fin]
+
+/-- the identifier core fails where the text starts with a character of neither class -/
+theorem idCore_none_head (W A B : CSet) (pre : List Nat) (c : Nat) (t : List Nat) (ha : A.mem c = false) (hb : B.mem c = false) :
+    matchAt W (idCore A B) ⟨pre, c :: t⟩ = none := by
+  unfold matchAt idCore
+  simp [m, starLoop, ha, hb, Option.orElse]
+
+end MindsVerif.Re
